@@ -145,8 +145,7 @@ def transpile_and_monitor(sub, debug):
     old = list(sub.instructions)
     old_targets = {id(i): branch_target(i) for i in old if branch_target(i) is not None}
     new_sub = NVSubroutineTranspiler(sub, debug=debug).transpile()
-    # debug comments are not part of what a controller receives: positions and branch targets are judged on the encoded list
-    new = [x for x in new_sub.instructions if not isinstance(x, DebugInstruction)]
+    new = list(new_sub.instructions)      # in memory the debug comments occupy positions (and branch targets count them)
     pos = {id(x): k for k, x in enumerate(new)}
     # non-gate instructions keep identity and order
     last = -1
@@ -193,13 +192,17 @@ def transpile_and_monitor(sub, debug):
             want = start_of(t_old)
             if want == "ambiguous":
                 continue
-            if got != want:
+            # debug comments may precede the expansion
+            k = want
+            while k < len(new) and isinstance(new[k], DebugInstruction) and got != k:
+                k += 1
+            if got not in (want, k):
                 return new_sub, f"branch {i} targeted old instruction {t_old} ({old[t_old]}) whose expansion starts at {want}, but now targets {got}", {}
     for i in new:
         from netqasm.lang.instr import vanilla
         if type(i).__module__ == vanilla.__name__:
             return new_sub, f"vanilla instruction {i} survives transpilation", {}
-    expanded = sum(1 for t, i in enumerate(old) if is_gate(i)) and (len(new) > len(old))
+    expanded = sum(1 for t, i in enumerate(old) if is_gate(i)) and (len([x for x in new if not isinstance(x, DebugInstruction)]) > len(old))
     if debug:
         # the debug listing is executed the way a controller gets it: encoded and decoded with the NV flavour
         from netqasm.lang.parsing import deserialize
